@@ -334,6 +334,6 @@ def scripts():
 
 PROFILE = specgen.profile(domain_rate=0.0)
 PARTS = [
-    Part("evaluation", check, strategy=lambda ctx: cases(PROFILE), budget={"quick": 400, "thorough": 2000}),
+    Part("evaluation", check, strategy=lambda ctx: cases(PROFILE), budget={"quick": 700, "thorough": 2500}),
     Part("construction", check_construction, strategy=lambda ctx: scripts(), budget={"quick": 100, "thorough": 500}),
 ]
